@@ -121,6 +121,14 @@ func runC02(c *Ctx) error {
 	cov := newLRCoverage()
 	for _, j := range jobs {
 		pool := model.InputPool(inRng, j.CFG, want, exLen)
+		// a few long inputs: parse stacks deeper than the parser's initial capacity
+		for _, ls := range model.LongSentences(inRng, j.CFG, 3, 120) {
+			pool = append(pool, ls)
+			if len(ls) > 2 {
+				cut := append([]int(nil), ls[:len(ls)-1-inRng.Intn(len(ls)/2)]...)
+				pool = append(pool, cut)
+			}
+		}
 		if err := j.selfCheck(pool); err != nil {
 			return err
 		}
@@ -203,6 +211,11 @@ func runC03(c *Ctx) error {
 					refs = append(refs, &parseRef{j, s, inRng.Intn(calls - 1)})
 				}
 			}
+		}
+	}
+	for _, j := range jobs {
+		for _, ls := range model.LongSentences(inRng, j.CFG, 2, 120) {
+			refs = append(refs, &parseRef{j, ls, -1})
 		}
 	}
 	err := runParseBatch(c, jobs, "c03drv", refs, judgeC03, nil)
